@@ -114,15 +114,31 @@ func c18Values(tier string) [][]string {
 
 func c18Scenarios(tier string) []*Scenario {
 	var scs []*Scenario
+	type c18case struct {
+		name string
+		vals []string
+		cfg  TunCfg
+	}
+	var cases []c18case
 	for i, vals := range c18Values(tier) {
-		vals := vals
-		name := fmt.Sprintf("c18/v%d/%q", i, vals)
+		cases = append(cases, c18case{fmt.Sprintf("c18/v%d/%q", i, vals), vals, TunCfg{}})
+	}
+	// the tunnel itself was opened with a deadline (one hour): the handler's deadline is the
+	// header's duration when that is sooner, and never later than the tunnel's
+	for _, rev := range []bool{false, true} {
+		for i, vals := range [][]string{{"5S"}, {"1n"}, {"1H"}, {"2H"}, {"59M"}, {"61M"}, {"3600S"}, {"3601S"}, {"3599999m"}, {"99999999H"}, {"5"}, {""}, {"-1S"}, {"5S", "x"}, {"100000000S"}} {
+			cfg := TunCfg{Reverse: rev, OpenTimeout: time.Hour}
+			cases = append(cases, c18case{fmt.Sprintf("c18/tun1h/%s/v%d/%q", cfg, i, vals), vals, cfg})
+		}
+	}
+	for _, c := range cases {
+		vals, name, cfg := c.vals, c.name, c.cfg
 		scs = append(scs, &Scenario{
 			Name: name, Prop: "C18",
-			Desc: fmt.Sprintf("forward tunnel, one unary RPC whose request metadata has grpc-timeout=%q; the handler reads ctx.Deadline()", vals),
+			Desc: fmt.Sprintf("%s tunnel (opened with deadline: %v), one unary RPC whose request metadata has grpc-timeout=%q; the handler reads ctx.Deadline()", cfg, cfg.OpenTimeout, vals),
 			Opt:  Options{Level: "io", Bound: 0},
 			Run: func(w *World) {
-				t := w.OpenTunnel(TunCfg{})
+				t := w.OpenTunnel(cfg)
 				if t.StartErr != nil {
 					w.Log(Event{Actor: "env", Op: "start", Err: t.StartErr.Error(), Code: "start-failed"})
 					return
@@ -181,6 +197,20 @@ func c18Scenarios(tier string) []*Scenario {
 						exp["none"] = true
 					}
 				}
+				if cfg.OpenTimeout > 0 {
+					// every expectation is capped by the tunnel's own deadline
+					capped := map[string]bool{}
+					for k := range exp {
+						if k == "none" {
+							capped[strconv.FormatInt(int64(cfg.OpenTimeout), 10)] = true
+						} else if d, _ := strconv.ParseInt(k, 10, 64); time.Duration(d) > cfg.OpenTimeout {
+							capped[strconv.FormatInt(int64(cfg.OpenTimeout), 10)] = true
+						} else {
+							capped[k] = true
+						}
+					}
+					exp = capped
+				}
 				if !exp[got] {
 					var ex []string
 					for k := range exp {
@@ -188,6 +218,8 @@ func c18Scenarios(tier string) []*Scenario {
 					}
 					cls := "wrong-duration"
 					switch {
+					case cfg.OpenTimeout > 0:
+						cls = "wrong-duration-under-tunnel-deadline"
 					case malformed && len(vals) == 1:
 						cls = "malformed-accepted:" + c18Class(vals[0])
 					case got == "none":
@@ -236,7 +268,7 @@ func c18Class(v string) string {
 
 func init() {
 	register(&PropDef{ID: "C18", Level: "exploration",
-		Rule: "one execution per grpc-timeout header value list from an explicit finite set (all strings of length <= 3 (quick) / <= 4 (thorough) over {0,1,9,-,+,space,H,S,m,n,x}; per unit all-9 / 10^k / leading-zero digit strings of every length 1..20 and the int64 overflow boundary -1/0/+1; unit and case confusions; repeated headers); the handler's ctx.Deadline() minus virtual now must equal the gRPC wire specification's decoding (saturating), malformed values must yield no deadline; non-trivial = the case reached the handler and the tunnel served a second RPC afterwards",
+		Rule: "one execution per grpc-timeout header value list from an explicit finite set (all strings of length <= 3 (quick) / <= 4 (thorough) over {0,1,9,-,+,space,H,S,m,n,x}; per unit all-9 / 10^k / leading-zero digit strings of every length 1..20 and the int64 overflow boundary -1/0/+1; unit and case confusions; repeated headers); the handler's ctx.Deadline() minus virtual now must equal the gRPC wire specification's decoding (saturating), malformed values must yield no deadline; the same for 15 values on forward and reverse tunnels that were themselves opened with a one-hour deadline (expected: the sooner of the two); non-trivial = the case reached the handler and the tunnel served a second RPC afterwards",
 		Assumptions: []string{"virtual clock of testing/synctest does not advance during the execution (no clock ticks are scheduled), so deadline minus now is exact",
 			"reference decoder transcribed from the gRPC HTTP/2 wire spec (Timeout = 1..8 digits + unit) and cross-checked with grpc-go's decodeTimeout"},
 		Scenarios: c18Scenarios})
